@@ -81,6 +81,7 @@ type c02Env struct {
 	applyGates map[string]*c02ApplyGate
 	staleFetches int
 	f8Reached, f9Reached, f10Reached, f11Reached bool
+	fallbackLoss map[string]int64 // replica -> cut offset of a HW-fallback truncation that removed committed offsets
 }
 
 func (e *c02Env) logf(format string, a ...interface{}) {
@@ -105,6 +106,10 @@ func (e *c02Env) fail(fp, what string) {
 	e.mu.Lock()
 	e.failed = true
 	quiet := e.quietOracle
+	if len(e.fallbackLoss) > 0 && !strings.HasSuffix(fp, ":after-hw-fallback-truncation") {
+		fp += ":after-hw-fallback-truncation"
+		what += fmt.Sprintf(" [a replica of this scenario took the HW-truncation fallback and cut committed offsets: %v]", e.fallbackLoss)
+	}
 	e.mu.Unlock()
 	if quiet {
 		return
@@ -223,6 +228,26 @@ func c02NewEnv(rep *kit.Report, family string, seed uint64) (*c02Env, error) {
 			return nil
 		}
 		e.logf("truncate server=%v kind=%v lastEpoch=%v to=%v", a[0], a[3], a[4], a[5])
+		if kind, _ := a[3].(string); kind == "hw" {
+			// The documented lossy fallback (leader could not be asked): the
+			// replica cuts its log at its OWN high watermark.  If offsets at or
+			// beyond the cut are already known to be committed, this replica has
+			// just dropped committed messages — whatever loss shows up later in
+			// this scenario is that known hazard (known_findings.json), and is
+			// fingerprinted as such.
+			to, _ := a[5].(int64)
+			e.mu.Lock()
+			for o := range e.committed {
+				if o >= to {
+					if e.fallbackLoss == nil {
+						e.fallbackLoss = map[string]int64{}
+					}
+					e.fallbackLoss[fmt.Sprint(a[0])] = to
+					break
+				}
+			}
+			e.mu.Unlock()
+		}
 		return nil
 	})
 	on("partition.followerAppend", func(a ...interface{}) error {
